@@ -918,7 +918,7 @@ type invT struct {
 	ge    bool
 	C     int64
 	LenOf ssa.Value
-	Val   ssa.Value // ge with Val: phi >= Val + C (Val defined outside the loop)
+	Val   ssa.Value // with Val: phi >= Val + C (ge) or phi <= Val + C (Val defined outside the loop)
 }
 
 func (iv invT) lin(fc *factCtx, self Lin) Lin {
@@ -929,6 +929,11 @@ func (iv invT) lin(fc *factCtx, self Lin) Lin {
 			return leExpr(lb, self)
 		}
 		return leExpr(constLin(iv.C), self)
+	}
+	if iv.Val != nil {
+		ub := fc.iexpr(iv.Val)
+		ub.K += iv.C
+		return leExpr(self, ub)
 	}
 	ub := fc.lexpr(iv.LenOf)
 	ub.K += iv.C
@@ -964,7 +969,7 @@ func (p *Prover) invariants(fn *ssa.Function) map[*ssa.Phi][]invT {
 			if isIntType(ph.Type()) {
 				cs := []invT{{ge: true, C: -1}, {ge: true, C: 0}, {ge: true, C: 1}}
 				for _, x := range lens {
-					cs = append(cs, invT{LenOf: x, C: 0}, invT{LenOf: x, C: -1})
+					cs = append(cs, invT{LenOf: x, C: 0}, invT{LenOf: x, C: -1}, invT{LenOf: x, C: -2})
 				}
 				// phi >= its entry value (monotone counters)
 				for i, e := range ph.Edges {
@@ -977,7 +982,7 @@ func (p *Prover) invariants(fn *ssa.Function) map[*ssa.Phi][]invT {
 					if def, ok := e.(ssa.Instruction); ok && def.Block() != nil && p.c.Loops(fn).headers[def.Block()][b] {
 						continue
 					}
-					cs = append(cs, invT{ge: true, Val: e})
+					cs = append(cs, invT{ge: true, Val: e}, invT{Val: e})
 				}
 				cand[ph] = cs
 				phis = append(phis, ph)
